@@ -130,6 +130,7 @@ class OpWorld(World):
         #: live views of a state collection (id(ListObj) -> name of the cell it is a view of)
         self.live_views = {}
         self.side = "impl"
+        self.dsnaps = {"impl": [], "spec": []}
 
     def getattr(self, it, o, name):
         if o.kind == "scheduler" and name == "now":
@@ -525,6 +526,8 @@ class OpWorld(World):
         if k == "observer" and method == "dispose_previous" and o.name == "spec_out":
             # spec primitive: "the previous inner subscription is released now"
             self.struct["spec"].append(("dispose-prev",))
+            if self.harness is not None and self.harness.cur_spec is not None:
+                self.dsnaps["spec"].append(self.harness.capture_spec(self.harness.cur_spec))
             return None
         if k == "observer":
             tr = self.trace(o.name)
@@ -639,6 +642,10 @@ class OpWorld(World):
             self.disposed.append(o)
             if o.name.startswith("prev_"):
                 self.struct["impl"].append(("dispose-prev",))
+                if self.harness is not None and getattr(self.harness, "in_handler", False):
+                    # releasing a subscription runs foreign code (dispose actions, finally_action, ...) that may call back into
+                    # the operator: its state has to be consistent at this call-out too
+                    self.dsnaps["impl"].append(self.harness.capture_impl())
             elif o.name.startswith("sub:") and self.harness is not None and getattr(self.harness, "in_handler", False):
                 srcname = o.name.split(":")[1]
                 if srcname in self.harness.c.sources and len(self.harness.c.sources) > 1:
@@ -1403,6 +1410,16 @@ class OpHarness:
             t = self.inv_at(it, ctx, si[k], ss[k])
             ok &= self.record(ctx, oid + f"/call-out#{k}/inv-holds-when-subscribing", t, kind="inv",
                               detail="the source being subscribed may call back synchronously: operator state must be consistent here")
+        di, ds = getattr(w, "dsnaps", {"impl": [], "spec": []})["impl"], getattr(w, "dsnaps", {"impl": [], "spec": []})["spec"]
+        if not oid.rsplit("/", 1)[-1].endswith("on_next") or not (self.c.families or self.c.elem == "source"):
+            # (a terminal handler: the source sends nothing more, by its own grammar; an operator whose serial slots hold only timers:
+            # cancelling a timer runs no foreign code)
+            di = ds = []
+        for k in range(min(len(di), len(ds))):
+            t = self.inv_at(it, ctx, di[k], ds[k])
+            ok &= self.record(ctx, oid + f"/release#{k}/inv-holds-when-unsubscribing-the-previous-inner", t, kind="inv",
+                              detail="releasing a subscription runs foreign code that may push a new element into the operator: its state "
+                                     "(counters, flags) must already be the state for the new inner")
         return ok
 
     def after_termination(self, it, ctx, uid, cells_env, s):
@@ -2163,6 +2180,7 @@ class OpHarness:
         w.spec_subs.clear()
         w.struct = {"impl": [], "spec": []}
         w.snaps = {"impl": [], "spec": []}
+        w.dsnaps = {"impl": [], "spec": []}
         w.down_snaps = {"impl": [], "spec": []}
         w.lock_calls = []
         self.cell_writes = []
